@@ -10,8 +10,8 @@ Open Scope Z_scope.
 (* inst: nanoseconds relative to the harness epoch (a whole millisecond); utc: Location()==time.UTC *)
 Record gtime := T { inst : Z; utc : bool }.
 
-(* Go's zero time, far below any generated instant and a whole millisecond *)
-Definition tzero_inst : Z := - (10 ^ 24).
+(* Go's zero time (0001-01-01T00:00:00Z) relative to the harness epoch 2024-01-01T00:00:00Z: a whole millisecond *)
+Definition tzero_inst : Z := -63839664000000000000.
 Definition tzero : gtime := T tzero_inst true.
 Definition ms : Z := 1000000.
 
